@@ -60,11 +60,15 @@ func goEnv() []string {
 }
 
 func build(race bool) string {
+	tags := "verif"
+	if x := os.Getenv("VERIF_TAGS"); x != "" {
+		tags += "," + x
+	}
 	out := filepath.Join(root, ".build", "harness.test")
-	args := []string{"test", "-c", "-tags", "verif", "-vet=off", "-o", out}
+	args := []string{"test", "-c", "-tags", tags, "-vet=off", "-o", out}
 	if race {
 		out = filepath.Join(root, ".build", "harness.race.test")
-		args = []string{"test", "-c", "-race", "-tags", "verif", "-vet=off", "-o", out}
+		args = []string{"test", "-c", "-race", "-tags", tags, "-vet=off", "-o", out}
 	}
 	if ov := os.Getenv("VERIF_OVERLAY"); ov != "" {
 		// build against /repo with some files replaced (used to try deliberate breakages
@@ -184,7 +188,13 @@ func main() {
 		grace = 120
 	}
 
-	tmp, err := os.MkdirTemp(filepath.Join(root, ".build"), "run-"+id+"-")
+	// scratch space of the workers (bbolt WAL files etc.): tmpfs when available, because bbolt
+	// fsyncs on every write
+	tmpBase := filepath.Join(root, ".build")
+	if st, err := os.Stat("/dev/shm"); err == nil && st.IsDir() {
+		tmpBase = "/dev/shm"
+	}
+	tmp, err := os.MkdirTemp(tmpBase, "verif-run-"+id+"-")
 	if err != nil {
 		die("tmp: %v", err)
 	}
@@ -326,6 +336,14 @@ func main() {
 	nViol, nKnown := 0, 0
 	var knownList []string
 	os.MkdirAll(filepath.Join(root, "replays"), 0o755)
+	if replay == "" {
+		// replay files of an earlier run of this check are stale
+		if old, _ := filepath.Glob(filepath.Join(root, "replays", id+"-*.json")); len(old) > 0 {
+			for _, f := range old {
+				os.Remove(f)
+			}
+		}
+	}
 	for _, sig := range sigs {
 		if f, ok := known[sig]; ok {
 			nKnown++
